@@ -754,7 +754,8 @@ def generate_once(rng, index, small=False, forced=4):
 	if 'optbytes' in features and not nem_family:
 		builder.add_plain_struct(force=['optbytes'])
 	if 'union' in features and not symbol_family:
-		builder.add_plain_struct(force=['union'])
+		# one union, or two unions with their own selectors in ONE struct (each needs its own dummy read and temporary buffer)
+		builder.add_plain_struct(force=['union', 'union'] if builder.chance(1, 2) else ['union'])
 	for _ in range(0 if small else rng.randrange(0, 3)):
 		builder.add_plain_struct()
 
